@@ -713,3 +713,44 @@ def k_r5_every_call_asks_the_server(p: Project, rep: Report):
         rep.note("K-R5 undecided: the position of the server request in request_profile was not determined")
         return
     rep.check("K-R5", "request_profile:no-return-before-asking", not early, f"`{text(early[0])[:50]}` (line {early[0].lineno}) returns before _request_profile() is called: a profile is handed back without the server having been asked with the held date - a newer profile is never fetched while the shortcut applies, and an error the server would have reported is not seen" if early else "", loc(p, early[0] if early else fn0))
+
+
+def k_r6_stored_reply_carries_a_profile(p: Project, rep: Report):
+    """a status-0 reply is stored only after its PROFRS has been looked at"""
+    from .rules_client import client_class
+
+    rep.rule("K-R6", "a reply is written to the cache only after the date of ITS profile has been read unconditionally: somewhere before the write, `<...>.profrs.dtprofup` is evaluated as (part of) a statement of its own, the left-most operand of a test, or an argument - not only as a LATER operand of `or` / `and` (`assert held is None or held <= reply.profrs.dtprofup` never touches the reply's PROFRS when nothing is held yet): a status-0 reply WITHOUT a profile would be cached, and every later request for that institution dies reading its own cache")
+    ci = client_class(p)
+    fn = ci.own_func("request_profile")
+    if fn is None:
+        raise AnalysisError("OFXClient.request_profile not found")
+    reads = [x for x in ast.walk(fn) if isinstance(x, ast.Attribute) and x.attr == "dtprofup" and isinstance(x.value, ast.Attribute) and x.value.attr == "profrs" and isinstance(x.ctx, ast.Load)]
+    # only the reads made from the SERVER's reply matter: those after the request is sent
+    asks = [c for c in ast.walk(fn) if isinstance(c, ast.Call) and text(c.func) == "self._request_profile"]
+    if not asks or not reads:
+        rep.note("K-R6 undecided: no read of <reply>.profrs.dtprofup / no server request found in request_profile")
+        return
+    after = [r for r in reads if r.lineno > min(a.lineno for a in asks)]
+    if not after:
+        rep.check("K-R6", "request_profile:reply-profile-date-read", False, "the date of the reply's profile is never read after the request: a reply without PROFRS is stored", loc(p, fn))
+        return
+
+    def conditional(r):
+        """is the read a non-first operand of a BoolOp / an arm of a conditional expression?"""
+        from .source import parent as _parent
+
+        cur = r
+        while cur is not None and not isinstance(cur, ast.stmt):
+            par = _parent(cur)
+            if isinstance(par, ast.BoolOp) and par.values and par.values[0] is not cur and not any(z is r for z in ast.walk(par.values[0])):
+                return True
+            if isinstance(par, ast.IfExp) and par.test is not cur:
+                return True
+            cur = par
+        return False
+
+    for x in ast.walk(fn):
+        for ch in ast.iter_child_nodes(x):
+            ch._parent = x
+    uncond = [r for r in after if not conditional(r)]
+    rep.check("K-R6", "request_profile:reply-profile-date-read", bool(uncond), f"after the request, `{text(after[0])}` is only evaluated as a later operand of a short-circuit (line {after[0].lineno}): with nothing cached yet the reply's PROFRS is never looked at, so a status-0 reply that carries no profile is returned as success and written to the cache - the next call fails reading it" if not uncond else "", loc(p, after[0]))
